@@ -152,15 +152,7 @@ func registerIntrinsics(e *Engine) {
 			if p.forkBool(zero, fr, pos) {
 				p.goPanic(fr, pos, "division by zero (big.Int."+op+")")
 			}
-			switch op {
-			case "Quo":
-				return p.tb.IQuo(a[0], a[1])
-			case "Rem":
-				return p.tb.IRem(a[0], a[1])
-			case "Div":
-				return p.tb.IDiv(a[0], a[1])
-			}
-			return p.tb.IMod(a[0], a[1])
+			return p.bigDiv(op, a[0], a[1])
 		}, 2)
 	}
 	I["(*math/big.Int).Quo"] = divLike("Quo")
@@ -177,7 +169,7 @@ func registerIntrinsics(e *Engine) {
 		if p.forkBool(p.tb.Eq(y, IntConst64(0)), fr, pos) {
 			p.goPanic(fr, pos, "division by zero (big.Int.QuoRem)")
 		}
-		q, rm := p.tb.IQuo(x, y), p.tb.IRem(x, y)
+		q, rm := p.bigDiv("Quo", x, y), p.bigDiv("Rem", x, y)
 		z.Store(BigV{q})
 		r.Store(BigV{rm})
 		return TupleV{z, r}
@@ -189,7 +181,7 @@ func registerIntrinsics(e *Engine) {
 		if p.forkBool(p.tb.Eq(y, IntConst64(0)), fr, pos) {
 			p.goPanic(fr, pos, "division by zero (big.Int.DivMod)")
 		}
-		q, rm := p.tb.IDiv(x, y), p.tb.IMod(x, y)
+		q, rm := p.bigDiv("Div", x, y), p.bigDiv("Mod", x, y)
 		z.Store(BigV{q})
 		r.Store(BigV{rm})
 		return TupleV{z, r}
@@ -212,19 +204,18 @@ func registerIntrinsics(e *Engine) {
 	}
 	I["(*math/big.Int).Cmp"] = func(p *Path, fr *frame, fn *ssa.Function, args []Value, pos token.Pos) Value {
 		x, y := bigArg(p, fr, args[0], pos), bigArg(p, fr, args[1], pos)
-		tb := p.tb
-		return tb.Ite(tb.ILt(x, y), BVConst(^uint64(0), 64), tb.Ite(tb.ILt(y, x), BVConst(1, 64), BVConst(0, 64)))
+		return p.tri(p.tb.ILt(x, y), p.tb.ILt(y, x))
 	}
 	I["(*math/big.Int).CmpAbs"] = func(p *Path, fr *frame, fn *ssa.Function, args []Value, pos token.Pos) Value {
 		tb := p.tb
 		x, y := tb.IAbs(bigArg(p, fr, args[0], pos)), tb.IAbs(bigArg(p, fr, args[1], pos))
-		return tb.Ite(tb.ILt(x, y), BVConst(^uint64(0), 64), tb.Ite(tb.ILt(y, x), BVConst(1, 64), BVConst(0, 64)))
+		return p.tri(tb.ILt(x, y), tb.ILt(y, x))
 	}
 	I["(*math/big.Int).Sign"] = func(p *Path, fr *frame, fn *ssa.Function, args []Value, pos token.Pos) Value {
 		x := bigArg(p, fr, args[0], pos)
 		tb := p.tb
 		z := IntConst64(0)
-		return tb.Ite(tb.ILt(x, z), BVConst(^uint64(0), 64), tb.Ite(tb.ILt(z, x), BVConst(1, 64), BVConst(0, 64)))
+		return p.tri(tb.ILt(x, z), tb.ILt(z, x))
 	}
 	I["(*math/big.Int).Int64"] = func(p *Path, fr *frame, fn *ssa.Function, args []Value, pos token.Pos) Value {
 		// low 64 bits of |x| with the sign applied (as math/big does)
@@ -235,7 +226,13 @@ func registerIntrinsics(e *Engine) {
 	}
 	I["(*math/big.Int).Uint64"] = func(p *Path, fr *frame, fn *ssa.Function, args []Value, pos token.Pos) Value {
 		x := bigArg(p, fr, args[0], pos)
-		return p.tb.Int2BV(p.tb.IAbs(x), 64)
+		r := p.tb.Int2BV(p.tb.IAbs(x), 64)
+		if !r.c {
+			c := *r
+			c.ivU = p.tb.IMod(p.tb.IAbs(x), IntConst(new(big.Int).Lsh(big.NewInt(1), 64)))
+			return &c
+		}
+		return r
 	}
 	I["(*math/big.Int).IsInt64"] = func(p *Path, fr *frame, fn *ssa.Function, args []Value, pos token.Pos) Value {
 		x := bigArg(p, fr, args[0], pos)
@@ -708,6 +705,74 @@ func registerIntrinsics(e *Engine) {
 	I["time.Sleep"] = noop
 	I["time.now"] = I["time.Now"]
 	I["time.runtimeNano"] = func(p *Path, fr *frame, fn *ssa.Function, args []Value, pos token.Pos) Value { return BVConst(1, 64) }
+}
+
+// bigDiv: exact for constant divisors; for a symbolic divisor the quotient/remainder are (unless
+// the obligation asks for exact nonlinear arithmetic) fresh integers constrained by the linear
+// consequences of division only - an over-approximation: what is proved holds for the real
+// operation, and a model relying on an impossible quotient does not survive native replay.
+func (p *Path) bigDiv(op string, a, b *Term) *Term {
+	tb := p.tb
+	if b.c || p.E.Cfg.ExactNonlinear {
+		switch op {
+		case "Quo":
+			return tb.IQuo(a, b)
+		case "Rem":
+			return tb.IRem(a, b)
+		case "Div":
+			return tb.IDiv(a, b)
+		}
+		return tb.IMod(a, b)
+	}
+	p.stub("big.Int division by a symbolic divisor => quotient/remainder abstracted to their linear consequences (sign, |q|<=|a|, |r|<|b|, q=0 iff |a|<|b|, b=1 => q=a)")
+	key := op + "|" + a.s + "|" + b.s
+	if t, ok := p.divCache[key]; ok {
+		return t
+	}
+	p.ndiv++
+	q := p.decl(fmt.Sprintf("absdiv_q%d", p.ndiv), SInt)
+	r := p.decl(fmt.Sprintf("absdiv_r%d", p.ndiv), SInt)
+	zero := IntConst64(0)
+	aa, ab, aq, ar := tb.IAbs(a), tb.IAbs(b), tb.IAbs(q), tb.IAbs(r)
+	ax := tb.And(tb.ILe(aq, aa), tb.ILt(ar, ab))
+	ax = tb.And(ax, tb.Eq(tb.ILt(aa, ab), tb.Eq(q, zero)))
+	ax = tb.And(ax, tb.Implies(tb.Eq(b, IntConst64(1)), tb.And(tb.Eq(q, a), tb.Eq(r, zero))))
+	ax = tb.And(ax, tb.Implies(tb.Eq(a, b), tb.And(tb.Eq(q, IntConst64(1)), tb.Eq(r, zero))))
+	switch op {
+	case "Quo", "Rem": // truncated: sign(q) = sign(a)*sign(b), sign(r) = sign(a)
+		neg := tb.mk(SBool, "xor", tb.ILt(a, zero), tb.ILt(b, zero))
+		ax = tb.And(ax, tb.Implies(neg, tb.ILe(q, zero)))
+		ax = tb.And(ax, tb.Implies(tb.Not(neg), tb.ILe(zero, q)))
+		ax = tb.And(ax, tb.Implies(tb.ILe(zero, a), tb.ILe(zero, r)))
+		ax = tb.And(ax, tb.Implies(tb.ILe(a, zero), tb.ILe(r, zero)))
+	default: // Euclidean: 0 <= r
+		ax = tb.And(ax, tb.ILe(zero, r))
+		ax = tb.And(ax, tb.Implies(tb.And(tb.ILe(zero, a), tb.ILt(zero, b)), tb.ILe(zero, q)))
+	}
+	p.assertPC(ax)
+	p.divCache["Quo|"+a.s+"|"+b.s], p.divCache["Rem|"+a.s+"|"+b.s] = q, r
+	if op == "Div" || op == "Mod" {
+		p.divCache["Div|"+a.s+"|"+b.s], p.divCache["Mod|"+a.s+"|"+b.s] = q, r
+		delete(p.divCache, "Quo|"+a.s+"|"+b.s)
+		delete(p.divCache, "Rem|"+a.s+"|"+b.s)
+	}
+	if op == "Quo" || op == "Div" {
+		return q
+	}
+	return r
+}
+
+// tri builds the -1/0/+1 result of a three-way comparison, remembering its two conditions so
+// that the usual "cmp < 0", "cmp == 0", ... tests fold to them without touching bit-vectors.
+func (p *Path) tri(lt, gt *Term) *Term {
+	tb := p.tb
+	r := tb.Ite(lt, BVConst(^uint64(0), 64), tb.Ite(gt, BVConst(1, 64), BVConst(0, 64)))
+	if r.c {
+		return r
+	}
+	c := *r
+	c.triLt, c.triGt = lt, gt
+	return &c
 }
 
 func isErrorLike(p *Path, iv IfaceV) bool {
